@@ -28,6 +28,7 @@ class StreamFromGenerator(DefaultPublisherSubscription, Disposable):
         self._delay_between_messages = delay_between_messages
         self._subscriber: Optional[Subscriber] = None
         self._payload_feeder = None
+        self._generator = None
         self._iteration = None
         self._request_n_queue = asyncio.Queue()
         self._n_feeder = None
